@@ -211,6 +211,26 @@ def run(pid, tier, seed):
         tot["accepted"] += acc; tot["executions"] += len(execs)
         extra = dict(enumerated_schedules=runs, cases_with_several_schedules=distinct)
         log("[%s] schedule enumeration: %d schedules, %d validated" % (pid, runs, acc))
+        # real worker threads: completions and cancellations arrive from foreign threads at seeded instants; every
+        # execution is validated like the deterministic ones (thorough: also under ThreadSanitizer)
+        rng2 = random.Random(seed * 7919 + 6)
+        nthr = 300 if tier == "quick" else 4000
+        thr = [enginegen.gen_case(rng2, "thr_%d_%d" % (seed, i), dbdir=None, modes=("thr",), cancel_p=0.2, restart_p=0.05) for i in range(nthr)]
+        tt = engine_check.run_cases(pid, wd, thr, binary)
+        for i, r in enumerate(tt["rejections"]): violations.append(mk_violation(pid, seed, 3000 + i, r, "engine-trace-threaded"))
+        tot["accepted"] += tt["accepted"]; tot["executions"] += tt["executions"]; tot["events"] += tt["events"]; tot["states"] += tt["states"]
+        extra["threaded_executions"] = tt["executions"]
+        log("[%s] threaded: %d executions, %d accepted" % (pid, tt["executions"], tt["accepted"]))
+        if tier == "thorough":
+            tb = vlib.build("tsan") + "/harness/engine_driver"
+            t2 = engine_check.run_cases(pid, wd, thr[:1500], tb, env={"TSAN_OPTIONS": "exitcode=66 halt_on_error=0 report_signal_unsafe=0"})
+            races = [d for d in t2["driver_errors"] if d["rc"] == 66 or "ThreadSanitizer" in (d["err"] or "")]
+            for i, d in enumerate(races[:5]):
+                p = vlib.save_replay(pid, "tsan-%d-%d" % (seed, i), dict(property=pid, kind="tsan", report=d["err"], case=d["cases"][:200000]))
+                violations.append(dict(replay=p, what="ThreadSanitizer report on validated threaded executions: %s" % (d["err"] or "")[-300:], fingerprint=None))
+            for i, r in enumerate(t2["rejections"]): violations.append(mk_violation(pid, seed, 4000 + i, r, "engine-trace-tsan"))
+            extra["tsan_executions"] = t2["executions"]; extra["tsan_reports"] = len(races)
+            log("[%s] threaded under TSan: %d executions, %d reports" % (pid, t2["executions"], len(races)))
     cov = dict(states=mc["distinct"] or 0, transitions=mc["states"] or 0,
                traces_validated_against_impl=tot["accepted"],
                samples=[dict(kind="implementation trace (first 40 events)", events=tot["sample"] or [])],
